@@ -54,6 +54,9 @@ func (p *toks) typed() (gval, bool) {
 		}
 		p.i++
 		return gval{s, n}, true
+	case s == "n:":
+		p.i++
+		return gval{s, []byte(nil)}, true
 	case s == "t:1" || s == "t:0":
 		p.i++
 		return gval{s, s == "t:1"}, true
@@ -227,7 +230,7 @@ func parseStep(text string) (st step, err error) {
 		return opListTrim(p.str(), p.int(), p.int()), nil
 	case "set.Add":
 		k := p.str()
-		if p.i+1 < len(p.t) && (strings.HasPrefix(p.t[p.i+1], "i:") || strings.HasPrefix(p.t[p.i+1], "t:") || strings.HasPrefix(p.t[p.i+1], "f:")) {
+		if p.i+1 < len(p.t) && (strings.HasPrefix(p.t[p.i+1], "i:") || strings.HasPrefix(p.t[p.i+1], "t:") || strings.HasPrefix(p.t[p.i+1], "f:") || p.t[p.i+1] == "n:") {
 			n := p.int()
 			vs := make([]gval, 0, n)
 			for j := 0; j < n; j++ {
